@@ -678,6 +678,9 @@ func init() {
 		if n < 0 {
 			panic(targetRuntimePanic("strings: negative Repeat count"))
 		}
+		if lit, ok := a[0].(string); ok {
+			return strings.Repeat(lit, int(n))
+		}
 		var acc value = ""
 		for i := int64(0); i < n; i++ {
 			acc = concatStr(acc, a[0])
